@@ -66,6 +66,21 @@ K17 = [{"file": "k6_hilbert.rs", "harness": "k6_ij_to_quaternary_equiv", "kind":
              "k in 0..3 and flips in {YES, NO}"}
     for n in (1, 2, 3, 4, 5) for o in ("uv", "vu", "uw", "wu", "vw", "wv")]
 
+# labelled clauses that pin MORE than the property says (needed by the proofs of the clauses that do matter).  Their
+# failure counts as a violation only together with an input on which the property's own oracle fails.
+STRONGER_THAN_PROPERTY = {
+    "cell_to_children.value": "it fixes the ORDER in which the children of one cell are listed; C07 speaks about which cells they are",
+    "get_res0_cells.value": "it fixes the ORDER of the twelve base cells; C07 speaks about which cells they are",
+    "uncompact.value": "it fixes the order INSIDE the block of one input cell; C09 fixes the blocks and their order only",
+}
+
+# functions whose whole contract (and hence every proof step inside them) is written over that stronger statement
+STRONGER_ITEMS = {
+    "cell_to_children": STRONGER_THAN_PROPERTY["cell_to_children.value"],
+    "get_res0_cells": STRONGER_THAN_PROPERTY["get_res0_cells.value"],
+    "uncompact": STRONGER_THAN_PROPERTY["uncompact.value"],
+}
+
 # crate-root name -> module it must be re-exported from (src/lib.rs); the contracts are on the core functions
 PUBLIC_API = {
     "cell_to_boundary": "core::cell", "cell_to_lonlat": "core::cell", "lonlat_to_cell": "core::cell",
